@@ -1,6 +1,7 @@
 package main
 
 import (
+	"database/sql"
 	"encoding/json"
 	"flag"
 	"fmt"
@@ -97,7 +98,7 @@ func raceCmd(args []string) int {
 	fs.Parse(args)
 	setKnown(*kn)
 	st := NewStats("race", *seed)
-	st.Rule = "m = 2-6 connections, each in its own goroutine with its own tables (own bucket, or a shared bucket with its own prefix), run independent streams (create, write_time/deadline set and read back, inserts, transactions committed and rolled back, updates, deletes, selects, s3db_refresh, s3db_version, s3db_vacuum, drop) concurrently in a binary built with the race detector; every connection's outputs are compared with the same stream run alone; a data-race report, a deadlock (time limit) or a difference is a failure; each case runs in a child process; distinct = distinct set of streams (all non-trivial)"
+	st.Rule = "m = 2-6 connections, each in its own goroutine with its own tables (own bucket, or a shared bucket with its own prefix), run independent streams (create, write_time/deadline set and read back, inserts, transactions committed and rolled back, updates, deletes, selects, s3db_refresh, s3db_version, s3db_vacuum, drop) concurrently in a binary built with the race detector; every connection's outputs are compared with the same stream run alone; then 2-4 connections CREATE a table of the same name at once (storage LISTs held for 30 ms so that the opens overlap): exactly one succeeds and can use its table; a data-race report, a deadlock (time limit) or a difference is a failure; each case runs in a child process; distinct = distinct set of streams (all non-trivial)"
 	isChild, from, to := childRange()
 	if !isChild {
 		NewEmitter(*outp+".ops", *outp+".exp").Close()
@@ -216,6 +217,51 @@ func raceCmd(args []string) int {
 				}
 				st.Fail(fmt.Sprintf("race-%d-%d", *seed, i), fmt.Sprintf("connection %d of %d behaves differently when the others run concurrently: %s", c, m, d), conc[c].ops)
 				break
+			}
+		}
+		// the same table name from several connections at once: the registry is keyed by the bare name, so run
+		// one after another exactly the first CREATE succeeds — the same must hold when they overlap inside
+		// the storage open (every LIST is held for a moment so that they do)
+		{
+			k := 2 + r.Intn(3)
+			name := fmt.Sprintf("dup_%d_%s", i, sqlh.Uniq())
+			res := make([]string, k)
+			dbs := make([]*sql.DB, k)
+			var start, dwg sync.WaitGroup
+			start.Add(1)
+			for c := 0; c < k; c++ {
+				dbs[c] = sqlh.Open()
+				dwg.Add(1)
+				go func(c int) {
+					defer dwg.Done()
+					start.Wait()
+					res[c] = classOnly(sqlh.XS(dbs[c], sqlh.CreateSQL(sqlh.TableOpts{Name: name, Bucket: sharedBucket, Prefix: fmt.Sprintf("dup%d", c), Columns: "k primary key, a", EntriesPerNode: 4})))
+				}(c)
+			}
+			sqlh.SlowLists(30 * time.Millisecond)
+			start.Done()
+			dwg.Wait()
+			sqlh.SlowLists(0)
+			nok, winner := 0, -1
+			for c, x := range res {
+				if x == "ok" {
+					nok++
+					winner = c
+				}
+			}
+			st.Evaluations++
+			st.Count("same_name_creates")
+			if nok != 1 {
+				st.Fail(fmt.Sprintf("race-%d-%d", *seed, i), fmt.Sprintf("%d connections created a table of the same name at once: %d of the CREATEs succeeded (%v); one after another exactly one does", k, nok, res), nil)
+			} else {
+				if e := sqlh.XS(dbs[winner], fmt.Sprintf(`insert into "%s" values(1,'w')`, name)); e != "ok" {
+					st.Fail(fmt.Sprintf("race-%d-%d", *seed, i), "the connection that won the CREATE cannot write: "+e, nil)
+				} else if got := sqlh.QS(dbs[winner], fmt.Sprintf(`select count(*) from "%s"`, name)); got != "I:1" {
+					st.Fail(fmt.Sprintf("race-%d-%d", *seed, i), "the connection that won the CREATE reads "+got, nil)
+				}
+				for c := range dbs {
+					dbs[c].Close()
+				}
 			}
 		}
 		st.Count(fmt.Sprintf("connections_%d", m))
